@@ -157,7 +157,7 @@ _VERB_LETTER = {
 
 def unround(t):
     """strip round_n(.) wrappers of a z3 term"""
-    while z3.is_app(t) and t.decl().name().startswith("round_") and t.num_args() == 1:
+    while z3.is_app(t) and t.decl().name().startswith("sx_round_") and t.num_args() == 1:
         t = t.arg(0)
     return t
 
@@ -236,6 +236,30 @@ class Path:
 
     def __len__(self):
         return len(self._segs)
+
+    @property
+    def contours(self):
+        """one view per contour (a MOVE starts a contour)"""
+        out = []
+        cur = None
+        for seg in self._segs:
+            if seg[0] == PathVerb.MOVE or cur is None:
+                cur = []
+                out.append(cur)
+            cur.append(seg)
+        return iter(out)
+
+    @property
+    def segments(self):
+        return iter(list(self._segs))
+
+    @property
+    def verbs(self):
+        return [v for v, _ in self._segs]
+
+    @property
+    def points(self):
+        return [p for _, pts in self._segs for p in pts]
 
     def _flat(self):
         verbs = [_VERB_LETTER[v] for v, _ in self._segs]
